@@ -20,13 +20,13 @@ template <class... Ts>
 { long v[4]={-1,-1,-1,-1}; int i=0; (void)i; ((v[i++]=(long)ts),...); __verif_fail(id,v[0],v[1],v[2],v[3]); }
 template <class... Ts>
 __attribute__((always_inline)) inline void vdecl(const char* id, bool c, Ts... ts)
-{ long v[4]={-1,-1,-1,-1}; int i=0; (void)i; ((v[i++]=(long)ts),...); __verif_declare(id,v[0],v[1],v[2],v[3],(int)c); }
+{ long v[4]={-1,-1,-1,-1}; int i=0; (void)i; ((v[i++]=(long)ts),...); [[clang::nomerge]] __verif_declare(id,v[0],v[1],v[2],v[3],(int)c); }
 template <class... Ts>
 [[noreturn]] __attribute__((always_inline)) inline void vneg(const char* id, Ts... ts)
 { long v[4]={-1,-1,-1,-1}; int i=0; (void)i; ((v[i++]=(long)ts),...); __verif_negctl(id,v[0],v[1],v[2],v[3]); }
 template <class... Ts>
 __attribute__((always_inline)) inline void vnegdecl(const char* id, bool c, Ts... ts)
-{ long v[4]={-1,-1,-1,-1}; int i=0; (void)i; ((v[i++]=(long)ts),...); __verif_negctl_declare(id,v[0],v[1],v[2],v[3],(int)c); }
+{ long v[4]={-1,-1,-1,-1}; int i=0; (void)i; ((v[i++]=(long)ts),...); [[clang::nomerge]] __verif_negctl_declare(id,v[0],v[1],v[2],v[3],(int)c); }
 }
 #define ASSUME(c) do{ if(!(c)) __builtin_unreachable(); }while(0)
 #ifdef VERIF_DECLARE
